@@ -174,8 +174,10 @@ def dynStates (D : DynSpec) (sts : List TermSt) : List TermSt :=
   let keep := D.keep sts
   zipWith2 (fun rk st => { st with ops := zipWith2 (dynOperand D g keep) rk st.ops }) D.ranks sts
 
-/-- the emitted nest: outer loops `pre`, the dynamic split, inner loops -/
+/-- the emitted nest: outer loops `pre`, the dynamic split, inner loops.  If the partitioned rank is an output rank the
+    output is partitioned too (`Z_M1M0N`) and the footer merges the two levels (`mergeRanks`): the upper coordinate is not
+    recorded here, the lower one (absolute) is recorded under the name `K0` -/
 def runDyn (D : DynSpec) (out : List String) (pre : List (Bool × Nat)) (sts : List TermSt) : List (List Nat × Int) :=
-  runK (fun s => run ((D.rs'.zip D.es').map fun (r, e) => (out.contains r, e)) (dynStates D s)) pre sts
+  runK (fun s => run ((D.rs'.zip D.es').map fun (r, e) => ((renameRanks D.K D.K0 out).contains r, e)) (dynStates D s)) pre sts
 
 end Nest
